@@ -133,7 +133,7 @@ theorem digitsLE_upper (n : Nat) : ∀ c ∈ digitsLE n, c.toUpper = c := by
 
 theorem encode_eq (input : List UInt8) :
     encode input = List.replicate (36 - (digitsLE (fromBE input)).length) '8' ++ (digitsLE (fromBE input)).reverse := by
-  unfold Base26.encode
+  unfold LemoModel.Base26.encode
   simp only [List.reverse_append, List.reverse_replicate]
 
 theorem encode_upper (input : List UInt8) : (encode input).map Char.toUpper = encode input := by
@@ -149,7 +149,7 @@ theorem encode_upper (input : List UInt8) : (encode input).map Char.toUpper = en
 /-- `base26.Decode ∘ base26.Encode` strips the leading zero bytes (the number is what is encoded) -/
 theorem decode_encode (input : List UInt8) : decode (encode input) = stripZ input := by
   rw [encode_eq]
-  unfold Base26.decode
+  unfold LemoModel.Base26.decode
   simp only
   rw [List.dropWhile_append, List.dropWhile_replicate]
   simp only [beq_self_eq_true, if_true, List.isEmpty_nil]
@@ -161,7 +161,6 @@ theorem decode_encode (input : List UInt8) : decode (encode input) = stripZ inpu
       match hm : (digitsLE (fromBE input)).reverse, hl with
       | [], _ => rfl
       | x :: t, hl =>
-        rw [hm] at hl
         have : x ≠ '8' := by simpa using hl
         rw [List.dropWhile_cons]; simp [this]
   rw [hdrop, List.foldl_reverse, foldr_digits, Int.natAbs_natCast, toBE_fromBE_strip]
